@@ -76,6 +76,8 @@ type forwarder struct {
 	conns              sync.Map
 	bytesUp, bytesDown int64
 	lastMove           int64 // unix nano of the last forwarded byte
+	liveSince          int64 // unix nano since when a carrier forwarding in both directions is connected (0 = none)
+	liveConns          int32
 }
 
 func newForwarder(target string, plan *sessionPlan, res *vlib.Result) (*forwarder, error) {
@@ -172,6 +174,7 @@ func (f *forwarder) serve(c net.Conn, p carrierPlan, idx int) {
 				if cutNow {
 					if p.Kind == "stall" {
 						atomic.StoreInt32(&stalled, 1)
+						atomic.StoreInt64(&f.liveSince, 0)
 						f.res.Obs("faults_stall", 1)
 						f.noteFault()
 						time.AfterFunc(time.Duration(p.StallMs)*time.Millisecond, func() { cut("") })
@@ -191,6 +194,15 @@ func (f *forwarder) serve(c net.Conn, p carrierPlan, idx int) {
 	if p.Kind == "healthy" || p.Kind == "delay" || p.Kind == "handoff" {
 		up, down = -1, -1
 	}
+	if atomic.AddInt32(&f.liveConns, 1) == 1 {
+		atomic.StoreInt64(&f.liveSince, time.Now().UnixNano())
+	}
+	defer func() {
+		// any carrier ending restarts the clock: a stall is only judged over a
+		// period in which one and the same carrier set was continuously usable
+		atomic.AddInt32(&f.liveConns, -1)
+		atomic.StoreInt64(&f.liveSince, 0)
+	}()
 	go pump(s, c, up, &f.bytesUp, "up")
 	pump(c, s, down, &f.bytesDown, "down")
 }
@@ -320,6 +332,14 @@ func (s *e2eServer) handle(conn net.Conn) {
 			off += n
 		}
 	}()
+	if plan.LenUp == 0 {
+		go func() {
+			<-wdone
+			plan.mu.Lock()
+			plan.serverDone = true
+			plan.mu.Unlock()
+		}()
+	}
 	// upstream verifier
 	chk := &vlib.StreamChecker{Tag: tag, Dir: 0}
 	buf := make([]byte, 32768)
@@ -339,6 +359,17 @@ func (s *e2eServer) handle(conn net.Conn) {
 			plan.mu.Lock()
 			plan.upVerified = chk.Off
 			plan.mu.Unlock()
+			if chk.Off == plan.LenUp {
+				// everything written upstream has arrived; the client may now go away
+				// without the stream's end ever being transmitted, so completion is
+				// not tied to seeing EOF (further bytes would still be flagged above)
+				go func() {
+					<-wdone
+					plan.mu.Lock()
+					plan.serverDone = true
+					plan.mu.Unlock()
+				}()
+			}
 		}
 		if err != nil {
 			rerr = err
@@ -347,7 +378,6 @@ func (s *e2eServer) handle(conn net.Conn) {
 	}
 	<-wdone
 	plan.mu.Lock()
-	plan.serverDone = true
 	if rerr != nil && rerr != io.EOF {
 		plan.serverErr = rerr.Error()
 	}
@@ -649,6 +679,10 @@ func (m *modelClient) run(deadline time.Duration) {
 	}()
 	timer := time.NewTimer(deadline)
 	defer timer.Stop()
+	tick := time.NewTicker(time.Second)
+	defer tick.Stop()
+	var lastProg uint64
+	lastProgAt := time.Now()
 	var werr, rerr error
 	wOK, rOK := false, false
 	for !(wOK && rOK) {
@@ -668,6 +702,25 @@ func (m *modelClient) run(deadline time.Duration) {
 		case <-timer.C:
 			m.setErr("watchdog")
 			return
+		case <-tick.C:
+			plan.mu.Lock()
+			prog := plan.upVerified + plan.downVerified
+			plan.mu.Unlock()
+			now := time.Now()
+			if prog != lastProg {
+				lastProg, lastProgAt = prog, now
+			}
+			ls := atomic.LoadInt64(&m.f.liveSince)
+			if ls == 0 {
+				// no continuously usable carrier: (re)start the observation period
+				lastProgAt = now
+				continue
+			}
+			if since := time.Unix(0, ls); now.Sub(lastProgAt) > stallLimit && now.Sub(since) > stallLimit {
+				m.res.Violate("c01:no-progress-with-live-carrier", fmt.Sprintf("session %x: a carrier forwarding in both directions has been connected for %v, yet no further byte was delivered to either end for %v (KCP's largest retransmission timeout is 60 s) and the transfer is incomplete", plan.Tag, now.Sub(since).Round(time.Second), now.Sub(lastProgAt).Round(time.Second)), map[string]interface{}{"case": fmt.Sprintf("sess/%x", plan.Tag), "plan": planSnapshot(plan)})
+				m.setErr("stalled")
+				return
+			}
 		}
 	}
 	// let the bridge side drain before closing: it must read exactly LenUp bytes
@@ -686,6 +739,9 @@ func (m *modelClient) setErr(s string) {
 	m.plan.clientErr = s
 	m.plan.mu.Unlock()
 }
+
+// stallLimit: more than twice KCP's maximal retransmission timeout (60 s).
+const stallLimit = 150 * time.Second
 
 func waitFor(d time.Duration, f func() bool) bool {
 	end := time.Now().Add(d)
